@@ -117,6 +117,10 @@ def iter_script(d, prop, followups=True):
         if op in SEARCH_OPS:
             st["arg"] = arg          # the call index at which the scripted predicate ends the search (-1: never)
         steps.append(st)
+        if op == "iter_clone" and not d.get("cpan") and not pan:
+            # a second clone of the same iterator: Clone::clone runs on the ORIGINAL elements each time (their own
+            # clone counters read 1 now), not on a copy
+            steps.append({"op": "iter_clone", "recv": [2]})
     if followups and op not in ("drop", "count", "last", "iter_fold", "iter_rfold", "iter_for_each"):
         steps += [{"op": "len", "recv": [2]}, {"op": "next", "recv": [2]}, {"op": "next_back", "recv": [2]}, {"op": "next", "recv": [2]}]
     s = {"case": "iter", "prop": prop, "ety": d.get("ety", "tk"), "steps": steps, "d": d}
@@ -241,6 +245,8 @@ def c06(tier, seed):
             for i in range(d["b"] - d["f"]):
                 extra.append(dict(d, op="as_mut_swap", arg=i))
     scns = [iter_script(d, "C06") for d in descs + extra]
+    # every transition also for an element type WITHOUT drop glue (a path selected by needs_drop must obey the same queue)
+    scns += [iter_script(dict(d, ety="plain"), "C06") for d in descs + extra if d["n"] <= (3 if tier == "quick" else 5) and d["op"] != "as_mut_swap"]
     # Clone of the iterator for an element type without drop glue but with an observable Clone
     scns += [iter_script(dict(d, ety=e), "C06") for d in descs if d["op"] == "iter_clone" for e in ("plain", "plz")]
     # searching consumers and for_each from every position
@@ -400,6 +406,9 @@ def clone_default_scripts(lens, prop, faults):
     for n in lens:
         for kind in ("arr", "box"):
             pans = list(range(1, n + 1)) if faults else [0]
+            if not faults:
+                out.append({"case": "clone_twice", "prop": prop, "ety": "tk", "steps": [_mk(kind, n), {"op": "clone", "recv": [1], "form": ["ref"]}, {"op": "clone", "recv": [1], "form": ["ref"]}, {"op": "clone", "recv": [2], "form": ["ref"]}],
+                            "d": {"op": "clone, again, and a clone of the clone", "kind": kind, "n": n}})
             for cp in pans:
                 s = {"case": "clone", "prop": prop, "ety": "tk", "steps": [_mk(kind, n), {"op": "clone", "recv": [1], "form": ["ref"]}],
                      "d": {"op": "clone", "kind": kind, "n": n, "cpan": cp}}
@@ -522,7 +531,7 @@ def c04(tier, seed):
     for d in list(descs):
         if d["n"] == 1:
             for n in big:
-                descs += [dict(d, n=n, panic_at=k) for k in sorted({0, 1, n // 2, n - 1})]
+                descs += [dict(d, n=n, panic_at=k) for k in (sorted({0, 1, n // 2, n - 1}) if n < 1024 or tier != "quick" else [n // 2])]
     scns = [s for d in descs for s in func_scripts(d, "C04")]
     small = [1, 2, 3, 4] if tier == "quick" else [1, 2, 3, 4, 5, 6]
     scns += clone_default_scripts(small + [8], "C04", True)
@@ -602,6 +611,9 @@ def c07(tier, seed):
                     guarded.append({"case": op, "prop": "C07", "ety": "tk", "noanon": True, "steps": [{"op": "mk_elem"}, st], "d": {"op": op, "n": n, "script": sc, "hint": h, "source_owns": "a tracked value"}})
     c.conform(binary, with_etys(guarded, ["tk", "plain"]), "collect-owning-source")
     c.conform(binary, with_etys(collect_scripts_large([17, 33, 97] if tier == "quick" else [16, 17, 32, 33, 64, 65, 97, 1024], "C07"), ["tk", "plain"] if tier == "quick" else ["tk", "zst", "plain"]), "collect-large")
+    if tier == "quick":
+        # N = 1024 with the plain kind only (cheap to validate): a path that starts somewhere between 97 and 1024
+        c.conform(binary, with_etys([s for s in collect_scripts_large([1024], "C07") if s["d"].get("hint") in (None, [0, -1])], ["plain"]), "collect-1024")
     if tier != "quick":
         c.neg("MC_Collect", "NEG_Collect_noprobe")
     return c.finish()
